@@ -139,6 +139,7 @@ func (self *Interpreter) callFunc(span errors.Span, val value.Value, args []ast.
 }
 
 func (self *Interpreter) block(node ast.AnalyzedBlock, handleScoping bool) (*value.Value, *value.Interrupt) {
+	verifStep()
 	if handleScoping {
 		self.pushScope()
 		defer self.popScope()
